@@ -28,16 +28,9 @@ Theorem C07_clone_equal : forall q deep n pa p cs ep0 epth0,
   erase (fst (clone_at (q_copy_drops_missing q) deep pa p n cs)) = erase n.
 Proof. intros. eapply clone_erase; eauto. left; auto. Qed.
 Print Assumptions C07_clone_equal.
-(* ... with the open finding (a list that holds MISSING_VALUE loses it in the copy): for every value that holds none *)
-Theorem C07_clone_equal_partial : forall q deep n pa p cs ep0 epth0,
-  wf_node ep0 epth0 n -> every holds_no_missing n ->
-  erase (fst (clone_at (q_copy_drops_missing q) deep pa p n cs)) = erase n.
-Proof. intros. eapply clone_erase; eauto. right; auto. Qed.
-Print Assumptions C07_clone_equal_partial.
-Theorem C07_clone_equal_refuted :
-  erase (fst (clone_at true false None [] refute_list (9%N, []))) <> erase refute_list.
-Proof. exact clone_equal_refuted. Qed.
-Print Assumptions C07_clone_equal_refuted.
+(* (The model keeps a flag for trees in which a list that holds MISSING_VALUE loses it in the copy -- repaired in /repo fd6d2c7;
+   the harness sets it only when it can replay that defect.  Proofs/SymCoreC07.v: clone_erase covers that case for every value that
+   holds no MISSING_VALUE, clone_equal_refuted is the counterexample with the flag on.) *)
 
 (* ... with the same flags (sealed, accessor-writable, partial) on every corresponding node ... *)
 Theorem C07_clone_flags : forall q deep n pa p cs ep0 epth0,
